@@ -440,6 +440,10 @@ pub enum Shape {
     AliasedRequest,
     /// several writer tasks and several reader tasks on one channel
     WorkPool,
+    /// a fire-and-forget task fills a channel it created itself, hands the channel over inside
+    /// a message and ends (or drops its handle and collects) before the receiver looks: the
+    /// queued handle alone keeps the channel and what is queued in it alive
+    Handoff,
 }
 
 pub const DETERMINATE: &[Shape] = &[
@@ -449,6 +453,7 @@ pub const DETERMINATE: &[Shape] = &[
     Shape::Independence,
     Shape::ChannelInMessage,
     Shape::AliasedRequest,
+    Shape::Handoff,
 ];
 
 pub const ALL: &[Shape] = &[
@@ -464,6 +469,7 @@ pub const ALL: &[Shape] = &[
     Shape::QueuedCycle,
     Shape::AliasedRequest,
     Shape::WorkPool,
+    Shape::Handoff,
 ];
 
 pub fn generate(rng: &mut Rng, shapes: &[Shape], print_from_main: bool) -> Workload {
@@ -697,6 +703,48 @@ pub fn generate(rng: &mut Rng, shapes: &[Shape], print_from_main: bool) -> Workl
             for i in 0..m {
                 let v = kind.mk(0, i);
                 obs.push((i, format!("{}/{}", v.touch(4).show(), v.show())));
+            }
+        }
+        Shape::Handoff => {
+            let workers = rng.range(1, 2) as i64;
+            // the channel is created in a function that has returned by the time it is sent, or
+            // directly in the task body
+            let in_callee = rng.chance(1, 2);
+            src.push_str(&format!("fn filled(k: int, n: int) -> channel<{ty}> {{\n    let r: channel<{ty}> = channel()\n    for i in n {{\n        r.write(mk(k, i))\n    }}\n    r\n}}\n"));
+            src.push_str(&format!("fn hand_over(out: channel<channel<{ty}>>, k: int, n: int) {{\n"));
+            if in_callee {
+                src.push_str("    out.write(filled(k, n))\n");
+            } else {
+                src.push_str(&format!("    let r: channel<{ty}> = channel()\n    out.write(r)\n    for i in n {{\n        r.write(mk(k, i))\n    }}\n"));
+            }
+            src.push_str("}\n\n");
+            for w in 1..=workers {
+                src.push_str(&format!("let out{w}: channel<channel<{ty}>> = channel()\n"));
+            }
+            for w in 1..=workers {
+                src.push_str(&format!("task {{\n    hand_over(out{w}, {w}, {m})\n"));
+                // the task may stay around, without its handle, and collect
+                match rng.below(3) {
+                    0 => src.push_str(&format!("    work({})\n", rng.range(10, 70))),
+                    1 => src.push_str("    pause()\n"),
+                    _ => {}
+                }
+                src.push_str("}\n");
+            }
+            // main may look at once, after the tasks have ended, or anywhere in between
+            match rng.below(4) {
+                0 => {}
+                1 => src.push_str("pause()\n"),
+                2 => src.push_str(&format!("work({})\n", rng.range(5, 40))),
+                _ => src.push_str(&format!("work({})\npause()\npause()\n", rng.range(40, 160))),
+            }
+            for w in 1..=workers {
+                src.push_str(&format!("let got{w} = out{w}.read()\n"));
+                src.push_str(&maybe_work(rng, ""));
+                src.push_str(&format!("for i in {m} {{\n    {}}}\n", say(0, &format!("show(got{w}.read())")).replace("obs(0,", &format!("obs({} + i,", w * 100)).replace("[0]", &format!("[\" .. ({} + i) .. \"]", w * 100))));
+                for i in 0..m {
+                    obs.push((w * 100 + i, kind.mk(w, i).show()));
+                }
             }
         }
         Shape::WorkPool => {
